@@ -24,7 +24,9 @@ RULE = ('seeded .zmx texts: 1-30 lens surfaces (plus object and image), STANDARD
         'spellings, INFINITY / finite / (wild) negative and infinite inner thicknesses, ENPD/FNUM/OBNA, angle and '
         'object-height fields (1-12, padded lines, wild: unsorted / duplicated), 1-12 wavelengths with 0-23 unused '
         'WAVM lines, any primary index, PWAV before or after WAVM, catalogue and unknown glass names, GCAT lists, '
-        'noise operands, LF / CRLF, UTF-8 and UTF-16 alternating; number tokens in repr / %.15E / %.9g / %.17g; '
+        'noise operands, LF / CRLF; encodings UTF-8, UTF-8 with BOM, UTF-16 LE with BOM, UTF-16 BE with BOM in rotation plus a '
+        'fixed corpus (each encoding x MODE|VERS first line x sequential|non-sequential, and two model glasses sharing one '
+        'unknown name); number tokens in repr / %.15E / %.9g / %.17g; '
         'non-trivial = the file loads and has at least one curved surface')
 PARTIAL = [
     'image surface: the round-trip theorem assumes the last SURF block is a plain image plane (listed finding D22: '
@@ -165,9 +167,33 @@ def _kernel_checks(ctx):
 
 
 # ------------------------------------------------------------------------------------------------
-def _make_cases(ctx, n, start=0, modes=True):
+def _corpus(ctx):
+    """the fixed part of every run: each encoding x (MODE | VERS on the first line) x (sequential | non-sequential),
+    and a file whose two model glasses share one unknown name"""
     g = ctx.gen
-    ps, cases = [], []
+    ps = []
+    k = 900000
+    for enc in L.ENCODINGS:
+        for first in ('MODE', 'VERS'):
+            for mode in ('sane', 'nsc'):
+                p = L.gen_prescription(g, k, mode, n=g.r.choice([1, 2, 3]))
+                p['mode_first'] = first == 'MODE'
+                if mode == 'sane':
+                    p['seqline'] = 'MODE SEQ'
+                p['encoding'] = enc
+                p['corpus'] = True
+                ps.append(p)
+                k += 1
+    p = L.gen_prescription(g, k, 'dupglass', n=4)
+    p['encoding'] = 'utf-8'
+    p['corpus'] = True
+    ps.append(p)
+    return ps
+
+
+def _make_cases(ctx, n, start=0, modes=True, corpus=True):
+    g = ctx.gen
+    ps = _corpus(ctx) if corpus else []
     for j in range(n):
         i = start + j
         mode = None
@@ -178,24 +204,35 @@ def _make_cases(ctx, n, start=0, modes=True):
                 mode = 'd22'
             elif i % 12 == 9:
                 mode = 'nsc'
+            elif i % 12 == 10:
+                mode = 'dupglass'
         p = L.gen_prescription(g, i, mode)
-        lines = L.emit_lines(p)
-        p['encoding'] = ['utf-8', 'utf-16'][i % 2]
+        p['encoding'] = L.ENCODINGS[i % 4]
+        p['mode_first'] = (i // 4) % 3 == 0
         ps.append(p)
-        cases.append({'text': L.emit_text(p), 'encoding': p['encoding'], 'parax': p['mode'] == 'sane',
-                      'expected': L.expected_lens(p), 'lookups': L.lookups_of(lines), 'lines': lines})
-    obs = L.run_loader(vlib, [{k: v for k, v in c.items() if k != 'lines'} for c in cases])
+    codecs = L.importer_encodings(vlib.REPO)
+    cases = []
+    for p in ps:
+        lines = L.emit_lines(p)
+        text = L.emit_text(p)
+        cases.append({'text': text, 'encoding': p['encoding'], 'parax': p['mode'] == 'sane',
+                      'expected': L.expected_lens(p), 'lookups': L.lookups_of(lines), 'lines': lines,
+                      # what the importer's line loop is handed: decoding follows the codec list in the source
+                      'model_lines': L.decoded_lines(L.encode_text(text, p['encoding']), codecs)})
+    obs = L.run_loader(vlib, [{k: v for k, v in c.items() if k not in ('lines', 'model_lines')} for c in cases])
     return ps, cases, obs
 
 
 def _witnesses(p, case, o):
     """property-level violations of one loaded file (the property stated directly on the implementation)"""
     ws = []
-    brief = {'idx': p['idx'], 'mode': p['mode'], 'encoding': p['encoding'], 'seed': p['seed']}
+    brief = {'idx': p['idx'], 'mode': p['mode'], 'encoding': p['encoding'], 'seed': p['seed'],
+             'first_line': 'MODE' if (p.get('mode_first') and p['seqline']) else 'VERS'}
     if p['mode'] == 'nsc':
         if o.get('ok') or o.get('err') != 'ValueError':
             ws.append({'kind': 'nonsequential-accepted', 'clause': 'nonsequential', 'class': 'nonsequential-accepted',
                        'detail': f'file says "{p["seqline"]}" and was not rejected with ValueError: {o.get("err")}',
+                       'encoding': p['encoding'], 'first_line': brief['first_line'],
                        'case': brief, 'text': case['text'], 'violates_property': True})
         return ws
     for d in L.compare(p, case['expected'], o):
@@ -214,15 +251,15 @@ def system_checks(ctx):
     except Exception as e:
         import traceback
         out.append({'name': 'kernel:all', 'n': 0, 'error': traceback.format_exc()[-1500:]})
-    n = ctx.n(48, 480)
-    ps, cases, obs = _make_cases(ctx, n)
+    ps, cases, obs = _make_cases(ctx, ctx.n(48, 480))
+    n = len(ps)
     # ---- 1. the hand model (evaluated in Coq, PrimFloat) against the real importer
     chunk = 4
     bodies, index = [], []
     for s in range(0, n, chunk):
         items = []
         for p, c, o in list(zip(ps, cases, obs))[s:s + chunk]:
-            model = f'(fload ({L.resolve_term(o["lookups"])}) {L.lines_term(vlib, c["lines"])})'
+            model = f'(fload ({L.resolve_term(o["lookups"])}) {L.lines_term(vlib, c["model_lines"])})'
             ob = f'(Some ({L.obs_lens_term(vlib, o, p["gcat"])}))' if o['ok'] else 'None'
             items.append(f'agrees {model} {ob}')
         bodies.append('Eval vm_compute in (report [\n' + ';\n'.join(items) + '\n]).\n')
@@ -230,8 +267,15 @@ def system_checks(ctx):
     res = vlib.run_cases('c20m', 'From OV Require Import Model.M_C20 Model.M_C20_exec.', bodies)
     m = {'name': 'model-vs-importer', 'n': n, 'disagreements': [],
          'nontrivial': sum(1 for o in obs if o.get('ok') and any(s['geom'] != 'Plane' for s in o['surfs'])),
-         'histogram': {'utf-8': sum(1 for p in ps if p['encoding'] == 'utf-8'), 'utf-16': sum(1 for p in ps if p['encoding'] == 'utf-16'),
+         'histogram': {**{'encoding:' + e: sum(1 for p in ps if p['encoding'] == e) for e in L.ENCODINGS},
+                       **{f'nonsequential:{e}': sum(1 for p in ps if p['encoding'] == e and p['mode'] == 'nsc') for e in L.ENCODINGS},
+                       'first_line:MODE': sum(1 for p in ps if p.get('mode_first') and p['seqline']),
+                       'first_line:VERS': sum(1 for p in ps if not (p.get('mode_first') and p['seqline'])),
+                       'importer_codecs': L.importer_encodings(vlib.REPO),
                        'surfaces_max': max(len(p['surfs']) for p in ps), 'load_raised': sum(1 for o in obs if not o.get('ok'))},
+         'note': 'every run holds the fixed corpus: UTF-8 without and with BOM, UTF-16 LE and BE with BOM, each with MODE and '
+                 'with VERS on the first line, each sequential and non-sequential; the model is fed the lines produced by the '
+                 'codec list read from _read_file',
          'samples': [{'file': ps[0]['idx'], 'encoding': ps[0]['encoding'], 'first_lines': cases[0]['lines'][:6],
                       'python': {k: obs[0].get(k) for k in ('ap', 'ftype', 'waves', 'prim')}}]}
     errs = [r[1] for r in res if r[0] == 'error']
@@ -296,6 +340,9 @@ def matches_finding(w, f):
         return (w.get('kind') == 'import-differs' and w.get('is_last_surf_block') is True
                 and w.get('clause') in LAST_BLOCK_CLAUSES and w.get('class') not in FINDING_GLASS_CLASSES
                 and w.get('class') != 'model-glass-wrong')
+    if m.get('kind') == 'bom-glued-to-first-token':
+        return (w.get('kind') == 'nonsequential-accepted' and w.get('encoding') == m.get('encoding')
+                and w.get('first_line') == m.get('first_line'))
     if m.get('kind') == 'glass-name-lookup':
         return (w.get('kind') == 'import-differs' and w.get('clause') == 'medium'
                 and w.get('class') in FINDING_GLASS_CLASSES and w.get('glass') in m.get('names', []))
@@ -337,8 +384,12 @@ def replay_finding(ctx, f):
         o = L.run_loader(vlib, [{'text': D21_TEXT.format(name=nm, nd='1.6', vd='50.0', imgc='0.0'), 'encoding': 'utf-8', 'lookups': []}])[0]
         med = o['surfs'][1]['med'] if o.get('ok') else None
         return bool(med and med[0] == 'cat' and abs(med[3] - 1.6) > 2e-3)
+    if m.get('kind') == 'bom-glued-to-first-token':
+        text = D21_TEXT.format(name='N-BK7', nd='1.5168', vd='64.17', imgc='0.0').replace('MODE SEQ', 'MODE NSC')
+        o = L.run_loader(vlib, [{'text': text, 'encoding': m['encoding'], 'lookups': []}])[0]
+        return bool(o.get('ok'))
     if m.get('kind') == 'last-surf-block-dropped':
-        o = L.run_loader(vlib, [{'text': D21_TEXT.format(name='N-BK7', nd='1.5168', vd='64.17', imgc='-0.01'), 'encoding': 'utf-16', 'lookups': []}])[0]
+        o = L.run_loader(vlib, [{'text': D21_TEXT.format(name='N-BK7', nd='1.5168', vd='64.17', imgc='-0.01'), 'encoding': 'utf-16-le-bom', 'lookups': []}])[0]
         return bool(o.get('ok') and o['surfs'][-1]['geom'] == 'Plane')
     return None
 
